@@ -1790,7 +1790,7 @@ impl Cpu {
                 }
             }
             RLSS => {
-                if self.n_flag() || !self.z_flag() {
+                if self.n_flag() && !self.z_flag() {
                     self.r[R_PC] = self.stack_pop(bus)?;
                     pc_increment = 0;
                 }
